@@ -5,7 +5,7 @@ import pandas as pd
 
 from neurodsp.timefrequency import amp_by_time
 
-from bycycle.utils import rename_extrema_df, check_param_range
+from bycycle.utils import rename_extrema_df, check_param_range, check_sig_dtype
 from bycycle.features.cyclepoints import compute_cyclepoints
 
 ###################################################################################################
@@ -89,6 +89,9 @@ def compute_shape_features(sig, fs, f_range, center_extrema='peak',
     elif 'first_extrema' in find_extrema_kwargs.keys():
         raise ValueError("This function has been designed to assume that the first extrema "
                          "identified will be a peak. This cannot be overwritten at this time.")
+
+    # Integer typed signals are analyzed as floats
+    sig = check_sig_dtype(sig)
 
     # Negate signal if set to analyze trough-centered cycles
     if center_extrema == 'peak':
@@ -253,6 +256,7 @@ def compute_symmetry(df_samples, sig, period=None, time_peak=None, time_trough=N
 
     # Determine rise and decay characteristics
     sym_features = {}
+    sig = check_sig_dtype(sig)
 
     time_decay = df_samples['sample_next_trough'] - df_samples['sample_peak']
     time_rise = df_samples['sample_peak'] - df_samples['sample_last_trough']
